@@ -177,7 +177,7 @@ LEVELS = {
             "Not proved: Rename's other failures, MkdirAll/RemoveAll; cache and tar layers are exercised by C04/C10/C12 only. Two known findings (precedence; ancestor named by RemoveAll)."),
     "C06": ("Proved over the mount model: routing is independent of the table's iteration order, selects the longest whole-element prefix, never confuses look-alike prefixes; only the routed constituent changes and the result is the direct one; AddMount succeeds at most/exactly once per point. "
             "Checked every run: routes of all candidate paths and operation histories model = implementation; per-constituent snapshots against a flat reference.",
-            "Cross-mount Rename's error class and the covered directory's mode in listings are not constrained (see DESIGN.md 0.6). Concurrency of AddMount is exercised, not proved."),
+            "Cross-mount Rename's error class and the covered directory's mode in listings are not constrained (see DESIGN.md 0.6). Concurrency of AddMount is exercised, not proved. Every primitive call of a cross-mount Rename is made to fail in turn: two known findings (it is not all-or-nothing)."),
     "C07": ("Proved over the Sub model: a view addresses base joined with the name, which is the base or below it and valid; invalid names change nothing; each operation is the parent's operation at the joined name with error paths translated back. "
             "Checked every run: view vs parent on identical copies for mem, mount (inside and above a mount point), os and an Open-only FS; model = implementation.",
             "Refuted (known findings): Rename through the generic view is ErrNotImplemented; Sub(mountFS, dir) above a mount point hides the mount."),
@@ -203,8 +203,8 @@ LEVELS = {
             "Checked every run: every history x every fault index, plain and transaction store: model = implementation; success despite a failed call only if result and store equal the failure-free ones; view = store afterwards.",
             "Not proved for OpenFile, WriteFile, Rename of directories, MkdirAll, RemoveAll and handle operations (the code ignores failures of look-ups it did not need there)."),
     "C15": ("Proved over the interleaving model of Mkdir/Remove/Stat: linearizability is REFUTED (two witnesses, matching the known findings); unrelated programs commute; single-transaction operations are linearizable; transactions are exclusive and released. "
-            "Checked every run: all interleavings at store-transaction granularity of small programs vs all sequential orders; anomalies are minimised and identified by the shape of the minimal witness.",
-            "Partial: the property as stated does not hold of the code (three known findings). Data races under free-running goroutines are not explored by this check."),
+            "Checked every run: all interleavings at store-transaction granularity of small programs vs all sequential orders; anomalies are minimised and identified by the shape of the minimal witness; free-running goroutines (writer and readers on one file, namespace work in private and common directories) in a child process built with the race detector: no data race, torn read, panic or deadlock.",
+            "Partial: the property as stated does not hold of the code (three known findings). The race stage is a stress run, not an enumeration."),
     "C16": ("Proved: paging with any positive counts partitions the listing; mixed counts (non-positive = the rest) deliver every child once and reach the end; never an empty page with nil error; EOF iff exhausted; the handle's ReadDir is that pager; listing by name is sorted and a permutation. "
             "Checked every run: 800 (directory x page sequence) cases on mem, kv, mount, Sub, cache, tar, os; model = implementation.",
             "Layers other than the key-value handle are oracle-only."),
